@@ -58,7 +58,9 @@ THR_RULE = ("request schedules (40-180 calls) from a grammar (idle gaps of 0, fi
 PROPS = {
     "C01": proc("corr.C01", "PROC", "props/C01.v", "refused starts and stop failures on the motion sink, no write faults; compared projection: motion-sink starts/stops/ids; spec S01 && S02"),
     "C02": proc("corr.C02", "PROC", "props/C02.v", "refused starts and stop failures, no write faults; compared projection: motion-sink starts/stops/ids; spec S02 (first id of every recording)"),
-    "C03": proc("corr.C03", "PROC", "props/C03.v", "refused starts and stop failures, no write faults; compared projection: per event started/stopped; spec S03 (stop iff position >= limit)"),
+    "C03": dict(proc("corr.C03", "PROC", "props/C03.v", "refused starts and stop failures; second stage: the fault histories of C12 (write faults on every sink, 1-20 %) judged by the same spec - a failed write still counts towards the length; compared projection: per event started/stopped; spec S03 (stop iff position >= limit)"),
+                **{"stages": [{"harness": "PROC", "corr": "corr.C03", "corr_src": "corr.C03src", "n": {"quick": 400, "thorough": 4000}, "shard": 20},
+                              {"harness": "PROCFAULT", "corr": "corr.C03", "corr_src": "corr.C03src", "n": {"quick": 40, "thorough": 1500}, "shard": 20}]}),
     "C04": dict(proc("corr.C04", "PROC", "props/C04.v", "refused starts at every gate; compared projection: window consultations, gate calls, stops; spec S04; the real window library is run next to window_active"),
                 **{"stages": [{"harness": "PROC", "corr": "corr.C04", "corr_src": "corr.C04src", "n": {"quick": 400, "thorough": 4000}, "shard": 20},
                               {"harness": "E2E", "corr": "corr.E2E14", "n": {"quick": 10, "thorough": 150}, "shard": 1}]}),
